@@ -172,6 +172,13 @@ def units(tier, seed):
         us.append(dict(id='a.' + '-'.join(ACTIONS[a] for a in combo), n=n, length=length, fixed=fx, ob='C14.a',
                        timeout=300 if tier == 'quick' else 1500, weight=40,
                        bounds='%d initial facts max, schedule length %d starting with %s' % (n, length, [ACTIONS[a] for a in combo])))
+    if tier == 'quick':
+        # interleavings of the two enumerations over THREE initial facts (index shifts under in-place removal need a third fact)
+        for combo in ((0, 1), (1, 0), (1, 1), (0, 0)):
+            fx = {'a%d' % i: a for i, a in enumerate(combo)}
+            fx['n'] = 3
+            us.append(dict(id='a3.' + '-'.join(ACTIONS[a] for a in combo), n=3, length=4, fixed=fx, ob='C14.a', timeout=300, weight=40,
+                           bounds='exactly 3 initial facts, schedule length 4 starting with %s' % [ACTIONS[a] for a in combo]))
     return us
 
 
